@@ -622,6 +622,55 @@ func c02Scenarios(ctx *vr.Ctx) []*c02Scn {
 	// completion of the first one's request frees
 	l = append(l, &c02Scn{Name: "D3c-mem", Kind: "mem", Cap: 1, Block: true, WFR: true, Consumers: 1, ConsumerPoint: true,
 		Producers: [][]c02Offer{{one(1)}, {one(2)}}, Shutdown: "end"})
+	// G: a generated family instead of more hand-picked drivers - every combination of queue kind, capacity 1/2,
+	// block_on_overflow, wait_for_result (memory), 1/2 consumers, five producer patterns over sizes 1/2 (never larger than
+	// the capacity) and shutdown at the end / concurrent with the traffic (non-blocking, no wait-for-result), judged like
+	// the D scenarios (linearizable against the bounded FIFO model, exactly-once hand-off, size bounds, no lost wake-up).
+	// Explored with one deviation less than the small hand-written scenarios.
+	patterns := [][][]int64{{{1}}, {{1, 1}}, {{1}, {1}}, {{1, 2}}, {{2}, {1}}}
+	gCons, gObs := []int{1, 2}, 1
+	if ctx.Quick() {
+		// quick tier: one consumer, no observer thread, three patterns (the full family runs in the thorough tier)
+		patterns = [][][]int64{{{1, 1}}, {{1}, {1}}, {{1, 2}}}
+		gCons, gObs = []int{1}, 0
+	}
+	for _, kind := range []string{"mem", "pq"} {
+		for _, capa := range []int64{1, 2} {
+			for _, block := range []bool{false, true} {
+				for _, wfr := range []bool{false, true} {
+					if wfr && kind != "mem" {
+						continue
+					}
+					for _, cons := range gCons {
+						for pi, pat := range patterns {
+							fits := true
+							var prods [][]c02Offer
+							id := 0
+							for _, p := range pat {
+								var offers []c02Offer
+								for _, sz := range p {
+									id++
+									offers = append(offers, c02Offer{ID: id, Size: sz})
+									fits = fits && sz <= capa
+								}
+								prods = append(prods, offers)
+							}
+							if !fits {
+								continue
+							}
+							for _, sd := range []string{"end", "concurrent"} {
+								if sd == "concurrent" && (block || wfr) {
+									continue // a producer parked in Offer while the queue is shut down is outside "while running"
+								}
+								l = append(l, &c02Scn{Name: fmt.Sprintf("G-%s-cap%d-block%v-wfr%v-c%d-p%d-%s", kind, capa, block, wfr, cons, pi, sd), Kind: kind, Cap: capa,
+									Block: block, WFR: wfr, Consumers: cons, ConsumerPoint: true, Big: true, Producers: prods, Observers: gObs, Shutdown: sd})
+							}
+						}
+					}
+				}
+			}
+		}
+	}
 	if !ctx.Quick() {
 		for _, kind := range []string{"mem", "pq"} {
 			l = append(l, &c02Scn{Name: "T1-" + kind, Kind: kind, Cap: 2, Block: true, Consumers: 2, ConsumerPoint: true, Big: true,
